@@ -34,7 +34,7 @@ REQUIRED = {"wild.status_rollup_over_actual_children": {"quick": 8, "thorough": 
             "inject.rule": {"quick": 500, "thorough": 3000}, "inject.outline": {"quick": 250, "thorough": 1200},
             "runs.containers_checked": {"quick": 20000, "thorough": 1000000}, "history.latest_run_only": {"quick": 200, "thorough": 8000},
             "history.reset_leaves_nothing": {"quick": 100, "thorough": 4000}}
-REQUIRED_SEEN = {"rule_titles": ["two_rules_with_the_same_title_or_none"], "feature_status": ["passed", "failed", "error", "skipped", "untested", "hook_error"],
+REQUIRED_SEEN = {"rule_titles": ["two_rules_with_the_same_title_or_none"], "raising_hook_decoration": ["capture"], "feature_status": ["passed", "failed", "error", "skipped", "untested", "hook_error"],
                  "scenario_status": ["passed", "failed", "error", "skipped", "untested", "hook_error"],
                  "junit_mode": ["on", "off"], "raising_step_hook": ["after_step_of_a_failing_step"], "autoretry_patch_style": ["rows", "as_listed"], "raising_tag_hook": ["tag_on_one_level", "tag_on_several_levels"]}
 EXHAUSTIVE = True
@@ -343,7 +343,19 @@ def real_runs(mon, lab, rng, n, tier):
                     (target or context.feature).skip(reason="fail fast")
             kw.setdefault("hook_plugins", []).append(fail_fast)
             mon.count("runs.with_skip_called_after_failure")
-        obs = lab.run(case["program"], args=case["args"], reporters=lambda config: [rep], **kw)
+        lab.capture_hooks = None
+        if mode == 1 and i % 8 == 1:
+            # the environment's hooks are decorated with behave's @capture (log capture for hooks): what such a hook raises is a hook
+            # failure like any other, whether or not it logged anything before
+            from ..lab.inproc import HOOK_NAMES
+            lab.capture_hooks = set(rng.sample(HOOK_NAMES, rng.randint(4, len(HOOK_NAMES))))
+            case = dict(case, capture_decorated_hooks=sorted(lab.capture_hooks))
+            ref["case"] = case
+            mon.seen("raising_hook_decoration", "capture")
+        try:
+            obs = lab.run(case["program"], args=case["args"], reporters=lambda config: [rep], **kw)
+        finally:
+            lab.capture_hooks = None
         mon.case(("run", RB.strip_case(case)), True)
         if obs.escaped is not None:
             mon.check("runs.no_exception_escapes", False, lambda: RB.witness(case, escaped=repr(obs.escaped)))
